@@ -591,6 +591,20 @@ func (g *gen) node(hand bool) *node {
 			key := keyPool[g.intn(5)]
 			nd.dict[key] = g.obj(1, false)
 		}
+		// dictionaries that look like those of streams exempt from encryption
+		// (the exemptions go by identity, not by looks)
+		switch g.intn(12) {
+		case 0, 1:
+			nd.dict["Type"] = pdf.Name("Metadata")
+			nd.dict["Subtype"] = pdf.Name("XML")
+		case 2:
+			nd.dict["Type"] = pdf.Name("XRef")
+		case 3:
+			nd.dict["Type"] = pdf.Name("ObjStm")
+		case 4:
+			nd.dict["Type"] = pdf.Name("Crypt")
+			nd.dict["Name"] = pdf.Name("Identity")
+		}
 		n := g.intn(40)
 		if g.intn(4) == 0 {
 			n = 900 + g.intn(1500) // beyond the stream writer's 1024-byte buffer
@@ -627,6 +641,47 @@ type srcSpec struct {
 	pw      string
 	human   bool
 	hand    bool
+	// meta: 0 no document metadata stream, 1 an encrypted one, 2 a plaintext one
+	// (/EncryptMetadata false; only the catalog's metadata stream is exempt)
+	meta int
+}
+
+func (sp srcSpec) options() *pdf.WriterOptions {
+	opt := &pdf.WriterOptions{UserPassword: sp.pw, HumanReadable: sp.human}
+	if sp.meta > 0 {
+		md, err := pdf.VerifNewMetadata("document metadata", sp.meta == 2)
+		must(err)
+		opt.DocumentMetadata = md
+	}
+	return opt
+}
+
+// chooseMeta: document metadata needs PDF 1.4, plaintext metadata in an encrypted file 1.6
+func (g *gen) chooseMeta(sp *srcSpec) {
+	if sp.version < pdf.V1_6 {
+		return
+	}
+	switch g.intn(4) {
+	case 0:
+		sp.meta = 1
+	case 1, 2:
+		sp.meta = 2
+	}
+}
+
+// metaRef returns the reference of the catalog's metadata stream.
+func metaRef(r *pdf.Reader) (pdf.Reference, bool) {
+	root, _ := r.GetMeta().Trailer["Root"].(pdf.Reference)
+	if root == 0 {
+		return 0, false
+	}
+	cat, err := r.Get(root, true)
+	if err != nil {
+		return 0, false
+	}
+	d, _ := cat.(pdf.Dict)
+	m, ok := d["Metadata"].(pdf.Reference)
+	return m, ok
 }
 
 func addPages(w *pdf.Writer) {
@@ -643,8 +698,7 @@ func addPages(w *pdf.Writer) {
 // reference (a same-length patch of the written bytes: "/Crypt" -> "NN 0 R").
 func writeWithWriter(g *gen, spec srcSpec, nodes []*node) ([]byte, []pdf.Reference) {
 	buf := &bytes.Buffer{}
-	opt := &pdf.WriterOptions{UserPassword: spec.pw, HumanReadable: spec.human}
-	w, err := pdf.NewWriter(buf, spec.version, opt)
+	w, err := pdf.NewWriter(buf, spec.version, spec.options())
 	if err != nil {
 		panic(err)
 	}
@@ -925,10 +979,11 @@ func writeByHand(g *gen, nodes []*node, longChain int) ([]byte, []pdf.Reference)
 // one case
 
 type callSpec struct {
-	kind   byte // 'R', 'C', 'X'
+	kind   byte // 'R' CopyReference, 'C' Copy(direct object), 'X' Redirect, 'V' Copy(value of ref), 'P' Put(result of op idx)
 	ref    pdf.Reference
 	obj    pdf.Object
 	marker pdf.Integer
+	idx    int
 }
 
 type caseResult struct {
@@ -988,6 +1043,9 @@ func runCase(e *common.Env, id string, variant int) {
 	case 3:
 		spec.human = true
 	}
+	if !spec.hand {
+		g.chooseMeta(&spec)
+	}
 	n := 1 + g.intn(8)
 	if g.intn(10) == 0 {
 		n = 8 + g.intn(12)
@@ -1010,6 +1068,12 @@ func runCase(e *common.Env, id string, variant int) {
 	src, err := pdf.NewReader(bytes.NewReader(data), int64(len(data)), &pdf.ReaderOptions{Password: spec.pw})
 	if err != nil {
 		panic(fmt.Sprintf("harness: cannot open generated source: %v", err))
+	}
+	if spec.meta > 0 {
+		// the catalog's metadata stream is part of the graph: the one stream that may be exempt by identity
+		if m, ok := metaRef(src); ok {
+			all = append(all, m)
+		}
 	}
 
 	// call sequence
@@ -1044,6 +1108,48 @@ func runCase(e *common.Env, id string, variant int) {
 		}
 	}
 
+	// values copied now and written later, in any order, with other copies in between
+	if variant == 0 && g.intn(4) == 0 {
+		var streams, others []pdf.Reference
+		for _, r := range all {
+			o, err := src.Get(r, true)
+			if err != nil || o == nil {
+				continue
+			}
+			if _, isStream := o.(*pdf.Stream); isStream {
+				streams = append(streams, r)
+			} else {
+				others = append(others, r)
+			}
+		}
+		var held []int
+		for k := 1 + g.intn(3); k > 0; k-- {
+			pool := streams
+			if len(pool) == 0 || (len(others) > 0 && g.intn(4) == 0) {
+				pool = others
+			}
+			if len(pool) == 0 {
+				break
+			}
+			calls = append(calls, callSpec{kind: 'V', ref: pool[g.intn(len(pool))]})
+			held = append(held, len(calls)-1)
+			if g.intn(3) == 0 {
+				calls = append(calls, callSpec{kind: 'R', ref: all[g.intn(len(all))]})
+			}
+		}
+		g.e.Rand.Shuffle(len(held), func(i, j int) { held[i], held[j] = held[j], held[i] })
+		for _, h := range held {
+			if g.intn(6) != 0 {
+				calls = append(calls, callSpec{kind: 'P', idx: h})
+			}
+			if g.intn(4) == 0 {
+				calls = append(calls, callSpec{kind: 'R', ref: all[g.intn(len(all))]})
+			}
+		}
+	}
+	// the whole sequence may run while a stream of the target is open: the Writer then defers every Put
+	inStream := g.intn(8) == 0
+
 	// target
 	tspec := srcSpec{version: versions[g.intn(3)]}
 	switch g.intn(4) {
@@ -1052,6 +1158,7 @@ func runCase(e *common.Env, id string, variant int) {
 	case 1:
 		tspec.human = true
 	}
+	g.chooseMeta(&tspec)
 	// a seekable target lets the Writer patch /Length in place, so that every
 	// allocation in the target is one of the Copier's; with a plain io.Writer
 	// the Writer allocates objects of its own for the lengths of long streams
@@ -1075,27 +1182,44 @@ func runCase(e *common.Env, id string, variant int) {
 	if !seekable {
 		class += "+noseek"
 	}
+	if inStream {
+		class += "+instream"
+	}
+	if spec.meta == 2 && spec.pw != "" {
+		class += "+srcplainmeta"
+	}
+	if tspec.meta == 2 && tspec.pw != "" {
+		class += "+dstplainmeta"
+	}
+	for _, c := range calls {
+		if c.kind == 'P' {
+			class += "+held"
+			break
+		}
+	}
 	nontrivial := false
 	for _, nd := range nodes {
 		if nd.kind == nAlias || nd.kind == nStream {
 			nontrivial = true
 		}
 	}
-	execCase(e, id, caseCfg{src: src, all: all, calls: calls, tspec: tspec, seekable: seekable, class: class, nontrivial: nontrivial, srcEnc: spec.pw != "",
+	execCase(e, id, caseCfg{src: src, all: all, calls: calls, tspec: tspec, seekable: seekable, class: class, nontrivial: nontrivial, srcEnc: spec.pw != "", inStream: inStream, srcPlainMeta: spec.pw != "" && spec.meta == 2,
 		info: map[string]any{"source_version": spec.version.String()}})
 }
 
 type caseCfg struct {
-	src        *pdf.Reader
-	all        []pdf.Reference // the source references presented to the model
-	calls      []callSpec
-	tspec      srcSpec
-	seekable   bool
-	class      string
-	nontrivial bool
-	srcEnc     bool // the source file is encrypted
-	wantErr    bool // the copy must fail with a malformed-file error
-	info       map[string]any
+	src          *pdf.Reader
+	all          []pdf.Reference // the source references presented to the model
+	calls        []callSpec
+	tspec        srcSpec
+	seekable     bool
+	class        string
+	nontrivial   bool
+	srcEnc       bool // the source file is encrypted
+	inStream     bool // run the calls while a stream of the target is open
+	srcPlainMeta bool // the source is encrypted with /EncryptMetadata false
+	wantErr      bool // the copy must fail with a malformed-file error
+	info         map[string]any
 }
 
 // execCase runs the calls against the real Copier and checks the result.
@@ -1145,9 +1269,16 @@ func execCase(e *common.Env, id string, cfg caseCfg) {
 	if seekable {
 		sink = dmem
 	}
-	dw, err := pdf.NewWriter(sink, tspec.version, &pdf.WriterOptions{UserPassword: tspec.pw, HumanReadable: tspec.human})
+	dw, err := pdf.NewWriter(sink, tspec.version, tspec.options())
 	must(err)
 	cp := pdf.NewCopier(dw, src)
+	var openStream io.WriteCloser
+	if cfg.inStream {
+		openStream, err = dw.OpenStream(dw.Alloc(), pdf.Dict{})
+		must(err)
+		_, err = openStream.Write([]byte("a stream of the caller's, open while the copier works"))
+		must(err)
+	}
 	a0 := dw.Alloc()
 
 	// the model's input: the source as the Reader presents it, the calls
@@ -1172,8 +1303,15 @@ func execCase(e *common.Env, id string, cfg caseCfg) {
 	if !seekable {
 		op = "N" // no count of Puts in the observation
 	}
+	// the values that 'V' operations copy: what Getter.Get returns for the reference
+	natives := make([]pdf.Native, len(calls))
+	for i, c := range calls {
+		if c.kind == 'V' {
+			natives[i], _ = src.Get(c.ref, true)
+		}
+	}
 	fmt.Fprintf(&ms, "%s %s %d %d%s %d", id, op, uint64(a0)+1, nsrc, srcWire.String(), len(calls))
-	for _, c := range calls {
+	for i, c := range calls {
 		switch c.kind {
 		case 'X':
 			fmt.Fprintf(&ms, " X %d", uint64(c.ref))
@@ -1183,12 +1321,18 @@ func execCase(e *common.Env, id string, cfg caseCfg) {
 		case 'C':
 			ms.WriteString(" C")
 			wireObj(&ms, c.obj, nil)
+		case 'V':
+			ms.WriteString(" V")
+			wireObj(&ms, natives[i], plain.data)
+		case 'P':
+			fmt.Fprintf(&ms, " P %d", c.idx)
 		}
 	}
 	e.Line("cases.txt", "%s", ms.String())
 	must(os.WriteFile(filepath.Join(e.Dir, "progress.txt"), []byte(ms.String()), 0o644))
 
 	results := make([]pdf.Object, len(calls))
+	heldChanged := ""
 	var copyErr error
 	panicked := ""
 	func() {
@@ -1218,6 +1362,34 @@ func execCase(e *common.Env, id string, cfg caseCfg) {
 					return
 				}
 				results[i] = o
+			case 'V':
+				o, err := cp.Copy(natives[i])
+				if err != nil {
+					copyErr = err
+					return
+				}
+				results[i] = o
+			case 'P':
+				// the value must still be what the copier returned: for a stream, the
+				// source's data after decryption
+				if hs, isStream := results[c.idx].(*pdf.Stream); isStream {
+					if ss, ok := natives[c.idx].(*pdf.Stream); ok {
+						got, err1 := io.ReadAll(hs.NewReader())
+						rc, err2 := pdf.RawStreamReader(src, ss)
+						if err1 == nil && err2 == nil {
+							want, err3 := io.ReadAll(rc)
+							if err3 == nil && !bytes.Equal(got, want) {
+								heldChanged = fmt.Sprintf("the stream copied from %v holds %d bytes that differ from the source's %d when it is written", calls[c.idx].ref, len(got), len(want))
+							}
+						}
+					}
+				}
+				t := dw.Alloc()
+				if err := dw.Put(t, results[c.idx]); err != nil {
+					copyErr = err
+					return
+				}
+				results[i] = t
 			}
 		}
 	}()
@@ -1243,8 +1415,9 @@ func execCase(e *common.Env, id string, cfg caseCfg) {
 	srcView.redir = override
 	st := &reachSt{mapped: map[pdf.Reference]bool{}, keys: map[pdf.Reference]bool{}, redirected: redirected}
 	var srcRoots []pdf.Object
+	nheld := 0
 	if !outsideHyp {
-		for _, c := range calls {
+		for i, c := range calls {
 			switch c.kind {
 			case 'X':
 				st.mapped[c.ref] = true
@@ -1255,6 +1428,15 @@ func execCase(e *common.Env, id string, cfg caseCfg) {
 			case 'C':
 				srcView.reach(st, c.obj)
 				srcRoots = append(srcRoots, c.obj)
+			case 'V':
+				srcView.reach(st, natives[i])
+			case 'P':
+				nheld++
+				if calls[c.idx].kind == 'V' {
+					srcRoots = append(srcRoots, natives[c.idx])
+				} else {
+					srcRoots = append(srcRoots, calls[c.idx].obj)
+				}
 			}
 		}
 	}
@@ -1309,6 +1491,16 @@ func execCase(e *common.Env, id string, cfg caseCfg) {
 		e.Fail("second-copy-allocates", fmt.Sprintf("copying %d references a second time allocated %d new objects", len(trans), a2-a1-1), caseInfo)
 	}
 
+	if heldChanged != "" {
+		e.Fail("held-value-changed", "a value returned by Copier.Copy changed before it was written: "+heldChanged, caseInfo)
+	}
+	if openStream != nil {
+		if err := openStream.Close(); err != nil {
+			e.Line("impl.obs", "%s err close", id)
+			e.Fail("target-close", "closing the stream that was open during the copy fails (deferred Puts): "+err.Error(), caseInfo)
+			return
+		}
+	}
 	addPages(dw)
 	if err := dw.Close(); err != nil {
 		e.Line("impl.obs", "%s err close", id)
@@ -1329,8 +1521,18 @@ func execCase(e *common.Env, id string, cfg caseCfg) {
 
 	var dstRoots []pdf.Object
 	for i, c := range calls {
-		if c.kind != 'X' {
+		switch c.kind {
+		case 'R', 'C':
 			dstRoots = append(dstRoots, results[i])
+		case 'P':
+			// the object that was written, as a value
+			o, ok := dstView.get(results[i].(pdf.Reference))
+			if !ok {
+				e.Line("impl.obs", "%s err reopen", id)
+				e.Fail("target-object-malformed", fmt.Sprintf("target object %v cannot be read", results[i]), caseInfo)
+				return
+			}
+			dstRoots = append(dstRoots, o)
 		}
 	}
 	nputs := int(a1.Number()) - int(a0.Number()) - 1
@@ -1354,8 +1556,8 @@ func execCase(e *common.Env, id string, cfg caseCfg) {
 		e.Fail("not-isomorphic", "the reopened target graph differs from the source graph", caseInfo)
 	}
 	want := len(st.keys)
-	if seekable && nputs != want {
-		e.Fail("object-count", fmt.Sprintf("%d target objects for %d distinct source objects reached", nputs, want), caseInfo)
+	if seekable && nputs != want+nheld {
+		e.Fail("object-count", fmt.Sprintf("%d target objects for %d distinct source objects reached and %d values written by the caller", nputs, want, nheld), caseInfo)
 	}
 	tOf := map[pdf.Reference]pdf.Reference{}
 	targets := map[pdf.Reference]bool{}
@@ -1422,7 +1624,16 @@ func execCase(e *common.Env, id string, cfg caseCfg) {
 			nsrc++
 		}
 	}
-	fmt.Fprintf(&ks, "%s.k K %d %d %d%s", id, b2i(cfg.srcEnc), b2i(tspec.pw != ""), nsrc, srcWire.String())
+	// the references exempt from encryption by identity: the catalog's metadata stream under /EncryptMetadata false
+	plainOf := func(r *pdf.Reader, plainMeta bool) string {
+		if plainMeta {
+			if m, ok := metaRef(r); ok {
+				return fmt.Sprintf(" 1 %d", uint64(m))
+			}
+		}
+		return " 0"
+	}
+	fmt.Fprintf(&ks, "%s.k K %d %d%s%s %d%s", id, b2i(cfg.srcEnc), b2i(tspec.pw != ""), plainOf(src, cfg.srcPlainMeta), plainOf(dst, tspec.pw != "" && tspec.meta == 2), nsrc, srcWire.String())
 	ntgt := 0
 	var tgtWire strings.Builder
 	for num := a0.Number() + 1; num < a1.Number(); num++ {
@@ -1445,8 +1656,8 @@ func execCase(e *common.Env, id string, cfg caseCfg) {
 	}
 	fmt.Fprintf(&ks, " %d", len(srcRoots))
 	for i := range srcRoots {
-		wireObj(&ks, srcRoots[i], nil)
-		wireObj(&ks, dstRoots[i], nil)
+		wireObj(&ks, srcRoots[i], srcView.data)
+		wireObj(&ks, dstRoots[i], dstView.data)
 	}
 	// what the copier and the target Writer did with the stream data: is it
 	// ciphertext in the target file?  (compared with the model's decision)
@@ -1616,7 +1827,7 @@ func main() {
 	debug.SetMaxStack(64 << 20)
 	e := common.New(11)
 	runCorpus(e)
-	n := e.Pick(8000, 100000)
+	n := e.Pick(7000, 100000)
 	for i := 0; i < n; i++ {
 		variant := 0
 		if i%25 == 24 {
